@@ -4,6 +4,7 @@ FAMILIES = {
     "vec": {"src": "scen/vec.cpp", "parts": 4},
     "str": {"src": "scen/str.cpp", "parts": 5},
     "set": {"src": "scen/set.cpp", "parts": 2},
+    "ovx": {"src": "scen/ovx.cpp", "parts": 3},
 }
 
 SAN = ["-O1", "-g1", "-fsanitize=address,undefined", "-fno-sanitize-recover=undefined", "-fno-omit-frame-pointer"]
@@ -49,6 +50,19 @@ PROPS = {
         "quick": {"flavours": ["chk-O2"], "runs": 400000, "max_seconds": 40},
         "thorough": {"flavours": ["chk-O2", "chk-asan", "off-asan", "chk-O0"], "runs": 12000000, "max_seconds": 240},
     },
+    "C07": {
+        "families": ["ovx"],
+        "level": "exploration",
+        "rule": "one run = one seeded plan over a pool of 1-3 objects of one scenario (optional<int|Tracked|TrackedMoveOnly|int&>, "
+                "variant<int,char>, variant<int,Tracked>, variant<Tracked,TrackedB,int,monostate>, expected<int,int>, "
+                "expected<Tracked,TrackedB>); every construction / assignment / emplace / reset / swap form is applied to the real "
+                "object and to std::optional or an (index,value) model carrying std::variant's ordering; after every step engaged "
+                "flag / index, value, every provided relational operator against every pool object, nullopt and values, "
+                "get_if/holds_alternative and one- and two-variant visit are compared; non-trivial and distinct as for C01",
+        "assumptions": COMMON_ASSUME + ["std::expected is C++23: a 10-line (has_value, value) model stands in for it; the variant model is (index, value) with std::variant's index-then-value ordering"],
+        "quick": {"flavours": ["chk-O2"], "runs": 300000, "max_seconds": 40},
+        "thorough": {"flavours": ["chk-O2", "chk-asan", "off-asan", "chk-O0"], "runs": 10000000, "max_seconds": 240},
+    },
     "C09": {
         "families": ["set"],
         "level": "exploration",
@@ -62,7 +76,7 @@ PROPS = {
         "thorough": {"flavours": ["chk-O2", "chk-asan", "off-asan", "chk-O0"], "runs": 10000000, "max_seconds": 240},
     },
     "C02": {
-        "families": ["vec", "str", "set"],
+        "families": ["vec", "str", "set", "ovx"],
         "level": "exploration",
         "rule": "one run = one seeded plan of valid (and capacity-refusal) steps executed twice under two different garbage "
                 "patterns in the arena, under ASan+UBSan, with guard zones, exact-size heap argument buffers and the allocator "
@@ -72,7 +86,7 @@ PROPS = {
         "thorough": {"flavours": ["chk-asan", "off-asan", "chk-O2", "chk-O0"], "runs": 6000000, "max_seconds": 240},
     },
     "C03": {
-        "families": ["vec", "set"],
+        "families": ["vec", "set", "ovx"],
         "level": "exploration",
         "rule": "one run = one seeded plan over owners of instrumented elements; every special-member call is checked against "
                 "an address-keyed lifetime registry, the live set inside each owner must equal [begin,end) after every step "
@@ -82,7 +96,7 @@ PROPS = {
         "thorough": {"flavours": ["chk-O2", "chk-asan", "off-asan", "chk-O0"], "runs": 12000000, "max_seconds": 240},
     },
     "C05": {
-        "families": ["vec", "str", "set"],
+        "families": ["vec", "str", "set", "ovx"],
         "level": "fault_enumeration",
         "rule": "misuse faults (a precondition-violating call at the boundary, boundary+1 and max) are attached to seeded steps "
                 "of container histories; the replaced handler must be entered with a location before any damage and, for "
@@ -134,6 +148,18 @@ MANIFEST_TEXT = {
                 "except the documented clamping appends. Two test-pinned deviations (replace overwrite semantics, default pos of the "
                 "reverse searches) are open known findings with executable defect models.",
         "ref": "DESIGN.md section 3 C04",
+    },
+    "C07": {
+        "text": "Seeded history simulation of optional (int, copy+move, move-only and reference payloads; mixed optional<T>/optional<U>), "
+                "variant (all-trivial, mixed and four-alternative shapes, every from/to index pair) and expected (trivial and "
+                "instrumented payloads): every construction, assignment (value, converting, copy, move, nullopt), emplace, reset and "
+                "swap form, with self-assignment, assignment from the variant's own alternative, moved-from reuse and trapped "
+                "misuse injected; after every step engaged flag / index / value, every provided relational operator, value_or, "
+                "and_then / or_else call counts, get_if / holds_alternative and one- and two-variant visit are compared with the model.",
+        "note": "std::optional is the reference for optional; variant and expected use small executable models that carry the std "
+                "semantics (std::expected is C++23 and the suite is built as C++20). How a state is reached (number of special-member "
+                "calls) is not compared.",
+        "ref": "DESIGN.md section 3 C07",
     },
     "C09": {
         "text": "Seeded history simulation of static_set and flat_set (over static_vector) with int and instrumented keys, capacities "
